@@ -20,13 +20,17 @@ MENU = [
     [("Echo", True), ("Echo", True), ("Ping", False)],
     [("Count", False), ("Echo", True), ("Count", False)],
     [("Ping", True), ("Fail", False), ("Count", True)],
+    [("Say", False), ("Echo", False)],
+    [("Say", False), ("Say", True), ("Say", False)],
 ]
 
 
 def frames_for(rng, tags, cid, calls):
     out = []
     for kind, ow in calls:
-        out.append(sg.call(kind, cid, tags.next(), v=rng.randrange(0, 1000), oneway=ow))
+        out.append(sg.call(kind, cid, tags.next(), v=rng.randrange(0, 1000), oneway=ow,
+                           more=rng.choice([False, False, True, "false"]),      # the flag does not decide the answer
+                           s=sg.nasty(rng), raw_utf8=rng.random() < 0.3))
     return out
 
 
@@ -100,8 +104,51 @@ def gen_cases(ck):
                     for order in (arr, arr[::-1]):
                         add(warm + order + [["p"], ["p"]], list(range(nconn)), "calls_same_poll",
                             {"conns": nconn, "last_winner": last})
+    # (e) the service echoes client-provided strings: U+0000 and other control characters, quotes, backslashes,
+    #     multi-byte characters; every reply must be exactly one frame (serde_json's rendering + one NUL) and
+    #     the replies behind it must not shift
+    for i, text in enumerate(sg.NASTY + [sg.nasty(rng) for _ in range(10 if quick else 200)]):
+        tags = sg.Tags()
+        fr = [sg.call("Say", 0, tags.next(), s=text, raw_utf8=(i % 2 == 1)), sg.call("Echo", 0, tags.next(), v=i),
+              sg.call("Say", 0, tags.next(), s=text + text), sg.call("Count", 0, tags.next())]
+        other = [sg.call("Say", 1, tags.next(), s=sg.nasty(rng)), sg.call("Echo", 1, tags.next(), v=1)]
+        add([["n", 0], ["a", 0, sg.wire(fr).hex()], ["p"]], [0], "echo_strings", {"s": repr(text)})
+        add(sg.with_polls([["n", 0], ["n", 1], ["a", 0, sg.wire(fr[:2]).hex()], ["a", 1, sg.wire(other).hex()],
+                           ["a", 0, sg.wire(fr[2:]).hex()]], rng.getrandbits(5)), [0, 1], "echo_strings",
+            {"s": repr(text)})
+    # (m) the answer kind is the service's decision, not the flag's: streaming answers for calls with `more`
+    #     absent, false and true, plain answers for calls with "more":true, with calls pipelined behind
+    for more in sg.MORE:
+        for n_items in (0, 1, 3):
+            for split in (False, True):
+                tags = sg.Tags()
+                fr = [sg.call("Echo", 0, tags.next(), v=1, more=True), sg.call("Sub", 0, tags.next(), more=more),
+                      sg.call("Fail", 0, tags.next(), v=2, more=True), sg.call("Count", 0, tags.next(), more="false")]
+                arr = [["a", 0, sg.wire(fr).hex()]] if not split else [["a", 0, sg.wire([f]).hex()] for f in fr]
+                sev = [["si", 0, 10 + j, rng.randrange(0, 3)] for j in range(n_items)] + [["se", 0]]
+                m = [["n", 0]] + sg.random_merge(rng, [arr, sev])
+                add(sg.with_polls(m, (1 << len(m)) - 1), [0], "answer_kind_vs_more_flag", {"more": more, "items": n_items})
+                add(sg.with_polls(m, 0), [0], "answer_kind_vs_more_flag", {"more": more, "items": n_items})
+    # (w) one connection's writes fail (at every position) while the others have calls pending / pipelined:
+    #     the others are answered as if nothing had happened
+    for k in range(0, 4):
+        for nother in (1, 2, 3):
+            for variant in range(2 if quick else 8):
+                tags = sg.Tags()
+                bad = rng.randrange(0, nother + 1)
+                seqs = []
+                for cid in range(nother + 1):
+                    fr = [sg.call(rng.choice(["Echo", "Count", "Fail", "Say"]), cid, tags.next(), v=cid,
+                                  s=sg.nasty(rng)) for _ in range(4 if cid == bad else rng.randrange(2, 5))]
+                    seq = [["a", cid, sg.wire(fr).hex()]] if variant % 2 == 0 else \
+                        [["a", cid, ch.hex()] for ch in sg.cut(sg.wire(fr), [rng.randrange(1, len(sg.wire(fr)))])]
+                    seqs.append(([["fw", cid, k]] if cid == bad else []) + seq)
+                m = [["n", c] for c in range(nother + 1)] + sg.random_merge(rng, seqs)
+                mask = 0 if variant % 2 == 0 else rng.getrandbits(len(m))
+                add(sg.with_polls(m, mask) + [["p"]], [c for c in range(nother + 1) if c != bad],
+                    "write_failure_elsewhere", {"failing": bad, "at_write": k, "others": nother})
     # (c) seeded random: up to 4 connections x up to 5 calls, any cuts, any merge, any polls
-    kinds = ["Echo", "Echo", "Fail", "Count", "Ping", "Total", "Sub"]
+    kinds = ["Echo", "Echo", "Fail", "Count", "Ping", "Total", "Sub", "Say"]
     for i in range(1800 if quick else 12000):
         nconn = rng.randrange(1, 5)
         tags = sg.Tags()
@@ -117,7 +164,8 @@ def gen_cases(ck):
                 if kind == "Sub":
                     nsub += 1
                 frames.append(sg.call(kind, cid, tags.next(), v=rng.randrange(0, 100000), oneway=ow,
-                                      more=(kind == "Sub"), shuffle=rng if rng.random() < 0.2 else None))
+                                      more=rng.choice(sg.MORE), shuffle=rng if rng.random() < 0.2 else None,
+                                      s=sg.nasty(rng), raw_utf8=rng.random() < 0.3))
             stream = sg.wire(frames)
             ncut = rng.choice([0, 0, 1, 2, 2, 3, 5])
             chunks = sg.cut(stream, [rng.randrange(1, max(2, len(stream))) for _ in range(ncut)]) if stream else []
